@@ -889,14 +889,14 @@ fn run_for<Q: QT>(ctx: &Ctx, rep: &mut Report, c12: bool, histories: u64, maxlen
 }
 
 pub fn run_c04(ctx: &Ctx, rep: &mut Report) {
-    let (h, ml) = if ctx.quick() { (60_000, 64) } else { (3_000_000, 4096) };
+    let (h, ml) = if ctx.quick() { (250_000, 64) } else { (3_000_000, 4096) };
     run_for::<Q8E0>(ctx, rep, false, h, ml.min(512));
     run_for::<Q16E1>(ctx, rep, false, h, ml);
     run_for::<Q32E2>(ctx, rep, false, h, ml);
 }
 
 pub fn run_c12(ctx: &Ctx, rep: &mut Report) {
-    let (h, ml) = if ctx.quick() { (40_000, 48) } else { (2_000_000, 1024) };
+    let (h, ml) = if ctx.quick() { (150_000, 48) } else { (2_000_000, 1024) };
     run_for::<Q8E0>(ctx, rep, true, h, ml.min(256));
     run_for::<Q16E1>(ctx, rep, true, h, ml);
     run_for::<Q32E2>(ctx, rep, true, h, ml);
